@@ -17,7 +17,7 @@ let parse_cfg (s : string) =
       let lvs = if later then List.assoc "olv" kv else g "lv" and sls = if later then List.assoc "osl" kv else g "sl" in
       let r0 = fresh_rep (lv lvs.[i]) (sls.[i] = '1') (lb <> "-" && int_of_string lb = i) (b "lr" && i = 2) in
       let bit k = (try (List.assoc k kv).[i] = '1' with Not_found -> false) in
-      { r0 with stale = bit "es"; busy_est = bit "be" }) in
+      { r0 with stale = bit "es"; rstale = bit "es"; busy_est = bit "be" }) in
   let bo k = (try List.assoc k kv = "1" with Not_found -> false) in
   let ga k d = (try List.assoc k kv with Not_found -> d) in
   let trig t = if t = "P" then TPre else if String.length t >= 2 && t.[0] = 'A' then TAtt (nat_of_int (int_of_string (String.sub t 1 (String.length t - 1))))
@@ -63,7 +63,21 @@ let show_result r = match r with
 
 let split_list s sep = if s = "-" || s = "" then [] else String.split_on_char sep s
 
+let cfg_get cfg k d =
+  let kv = List.filter_map (fun p -> match String.index_opt p '=' with
+      | Some i -> Some (String.sub p 0 i, String.sub p (i+1) (String.length p - i - 1)) | None -> None)
+      (String.split_on_char ',' cfg) in
+  (try List.assoc k kv with Not_found -> d)
+let enc_script s = if s = "-" || s = "" then "-" else String.concat "+" (String.split_on_char ',' s)
+let show_cache ((ld, px), reps) =
+  let ch f = String.concat "" (List.map f reps) in
+  Printf.sprintf "ld=%d,px=%s,es=%s,be=%s,olv=%s,osl=%s" (int_of_nat ld)
+    (match px with Some p -> string_of_int (int_of_nat p) | None -> "-1")
+    (ch (fun r -> b01 r.stale)) (ch (fun r -> b01 r.busy_est))
+    (ch (fun r -> match r.live with Reachable -> "R" | Unreachable -> "U" | Unknown -> "K")) (ch (fun r -> b01 r.slow))
+
 let () =
+  let pending = ref None and ncache = ref 0 in
   let n = ref 0 and mism = ref 0 and skipped = ref 0 and rearmed = ref 0 and nontriv = ref 0 in
   let counts = Hashtbl.create 64 in
   let bump k = Hashtbl.replace counts k (1 + (try Hashtbl.find counts k with Not_found -> 0)) in
@@ -83,6 +97,27 @@ let () =
           let evl = split_list events ';' in
           let sleeps = List.filter_map (fun e -> if String.length e > 0 && e.[0] = 'B' then
               (match String.split_on_char ':' e with [_; v] -> Some (n_of_int (int_of_string v)) | _ -> None) else None) evl in
+          (* multi-call sequences: the cache state the previous call of the sequence left, as PREDICTED by the model, must be
+             the state OBSERVED before this call *)
+          (* cheap test first: only multi-call lines carry nx=1 or a non-empty pre *)
+          let multi = (try ignore (Str.search_forward (Str.regexp_string "nx=1") cfg 0); true with Not_found -> false)
+                      || (try ignore (Str.search_forward (Str.regexp "pre=[^-,]") cfg 0); true with Not_found -> false) in
+          let pre = if multi then cfg_get cfg "pre" "-" else "-" in
+          (match !pending with
+           | Some (epre, pred, pcfg, pscript) when epre = pre ->
+               incr ncache;
+               let obs = Printf.sprintf "ld=%s,px=%s,es=%s,be=%s,olv=%s,osl=%s" (cfg_get cfg "ld" "0") (cfg_get cfg "px" "-1")
+                   (cfg_get cfg "es" "000") (cfg_get cfg "be" "000") (cfg_get cfg "olv" "---") (cfg_get cfg "osl" "000") in
+               if obs <> pred then begin
+                 incr mism;
+                 if !mism <= 40 then print_endline ("MISMATCH\t" ^ pcfg ^ "\t" ^ pscript ^ "\t-\timpl=cache-after-call " ^ obs ^ "\tmodel=cache-after-call " ^ pred)
+               end
+           | _ -> ());
+          pending := None;
+          if multi && cfg_get cfg "nx" "0" = "1" then begin
+            let (_, cache) = run_st c sc rs sleeps O in
+            pending := Some ((if pre = "-" then enc_script script else pre ^ "/" ^ enc_script script), show_cache cache, cfg, script)
+          end;
           let (mevs, mres) = (try run c sc rs sleeps with e -> ([], RError)) in
           let me = show_events mevs and mr = show_result mres in
           incr n;
@@ -92,13 +127,13 @@ let () =
           Hashtbl.replace distinct (cfg ^ "|" ^ me ^ "|" ^ mr) ();
           bump ("result:" ^ String.sub mr 0 1);
           bump ("rt:" ^ String.sub cfg 3 1);
-          (try (let i = Str.search_forward (Str.regexp "pre=[^-,]") cfg 0 in ignore i; bump "class:multi-call") with Not_found -> ());
+          if multi then bump "class:multi-call";
           if me <> events || mr <> result then begin
             incr mism;
             if !mism <= 40 then print_endline ("MISMATCH\t" ^ cfg ^ "\t" ^ script ^ "\t" ^ rands ^ "\timpl=" ^ events ^ " " ^ result ^ "\tmodel=" ^ me ^ " " ^ mr)
           end
         end
     | _ -> ());
-  Printf.printf "STATS\tcases=%d\tmismatches=%d\tforwarding_skipped=%d\trearmed=%d\tmultiattempt=%d\tdistinct=%d\n"
-    !n !mism !skipped !rearmed !nontriv (Hashtbl.length distinct);
+  Printf.printf "STATS\tcases=%d\tmismatches=%d\tforwarding_skipped=%d\trearmed=%d\tmultiattempt=%d\tdistinct=%d\tcache_predictions=%d\n"
+    !n !mism !skipped !rearmed !nontriv (Hashtbl.length distinct) !ncache;
   Hashtbl.iter (fun k v -> Printf.printf "COUNT\t%s\t%d\n" k v) counts
